@@ -1078,6 +1078,8 @@ class CTRFileIO(_CryptoFileBase):
 
         # attempt to re-use a cipher object when possible (it becomes invalidated when seeking)
         self._current_cipher = None
+        # a PyCryptodome cipher object can only be used in one direction
+        self._current_cipher_encrypts = False
 
     def __repr__(self):
         return (f'{type(self).__name__}(file={self._reader!r}, keyslot={self._keyslot}, counter={self._counter!r}, '
@@ -1092,12 +1094,13 @@ class CTRFileIO(_CryptoFileBase):
             cur_offset = self.tell()
             data = self._reader.read(size)
             cipher = self._current_cipher
-            if not cipher:
+            if not cipher or self._current_cipher_encrypts:
                 counter = self._counter + (cur_offset >> 4)
                 cipher = self._crypto.create_ctr_cipher(self._keyslot, counter)
                 # beginning padding
                 cipher.decrypt(b'\0' * (cur_offset % 0x10))
                 self._current_cipher = cipher
+                self._current_cipher_encrypts = False
             return cipher.decrypt(data)
 
     @_raise_if_file_closed
@@ -1105,12 +1108,13 @@ class CTRFileIO(_CryptoFileBase):
         with self._lock:
             cur_offset = self.tell()
             cipher = self._current_cipher
-            if not cipher:
+            if not cipher or not self._current_cipher_encrypts:
                 counter = self._counter + (cur_offset >> 4)
                 cipher = self._crypto.create_ctr_cipher(self._keyslot, counter)
                 # beginning padding
                 cipher.encrypt(b'\0' * (cur_offset % 0x10))
                 self._current_cipher = cipher
+                self._current_cipher_encrypts = True
             return self._reader.write(cipher.encrypt(data))
 
     @_raise_if_file_closed
